@@ -772,9 +772,12 @@ func (c *Connection) write(ctx context.Context, msg Message) error {
 		}
 		err = s.shuttingDown(ErrServerClosing)
 	})
-	if err == nil {
-		err = c.writer.Write(ctx, msg)
+	if err != nil {
+		// Refused at the shutdown gate: the message was never handed to the
+		// writer, so this says nothing about the writer's health.
+		return err
 	}
+	err = c.writer.Write(ctx, msg)
 
 	// For cancelled or rejected requests, we don't set the writeErr (which would
 	// break the connection). They can just be returned to the caller.
